@@ -73,6 +73,8 @@ def run(out, tier):
         for st in b["steps"]:
             if st["op"] == "drop" and rng.random() < 0.3:
                 st["unwind"] = True
+            elif st["op"] == "drop" and rng.random() < 0.25:
+                st["inside"] = True     # the handle is dropped from inside a dispatcher lookup (get_default closure)
     for i in range(30 if quick else 300):
         behs.append(snippet(rng, i))
     lines, found = execute(behs, "c03")
